@@ -4,16 +4,16 @@ from models.holpy import make_world, conformance
 from pyvc.verify import verify_function, verify_lemma
 w = make_world()
 print('conformance:', conformance(w))
-w.load_specs('spec.terms')
 for m in sys.argv[1].split(','):
-    w.load_contracts(m)
+    (w.load_specs if m.startswith('spec') else w.load_contracts)(m)
 targets = sys.argv[2].split(',') if len(sys.argv) > 2 else list(w.contracts)
 for q in targets:
+    if not q.startswith('lemma:') and (w.contracts[q].inline or w.contracts[q].trusted): continue
     t0=time.time()
     r = verify_lemma(w, q[6:]) if q.startswith('lemma:') else verify_function(w, q)
     j = r.to_json()
     print('%-50s %-12s paths=%d normal=%d obl=%d ok=%d  %.2fs  %s' % (q, j['status'], j['paths'], j['normal_paths'], j['obligations'], j['discharged'], j['secs'], j['message'][:3000]))
     for f in j['failed'][:3]:
-        print('   FAILED', f['label'], f['path'], json.dumps(f['model'])[:600])
+        print('   FAILED', f['label'], f['path'], json.dumps(f['model'])[:700])
     for f in j['unknown'][:3]:
         print('   UNKNOWN', f['label'], f['path'], f['detail'])
